@@ -590,3 +590,64 @@ pub fn search_serial_path(rng: &mut Rng) -> Option<Cex> {
     }
     None
 }
+
+// ---------------------------------------------------------------- C14: a bus of several virtual signs against each sign alone
+/// Random conversations on a bus of 1..4 virtual signs with distinct addresses and mixed flip styles, with transfers to
+/// several signs interleaved, addresses that coincide with chunk offsets / chunk counts (0, 1, 16, 32) and messages for
+/// absent addresses. Oracle = the property itself: every sign of the bus ends in exactly the state the same sign reaches
+/// when it is given the same messages alone, and the bus's reply is the reply of the one sign that answers.
+pub fn search_bus(rng: &mut Rng, rounds: usize) -> Option<Cex> {
+    use flipdot_core::SignBus;
+    let pool: [u16; 8] = [0, 1, 3, 6, 16, 32, 0x7F, 0xFFFF];
+    let types = [SignType::Max3000Side90x7, SignType::Max3000Rear30x10, SignType::HorizonFront160x16, SignType::HorizonDash40x12];
+    let ops = [Operation::ReceiveConfig, Operation::ReceivePixels, Operation::ShowLoadedPage, Operation::LoadNextPage, Operation::StartReset, Operation::FinishReset];
+    for _ in 0..rounds {
+        let k = 1 + rng.below(4) as usize;
+        let mut addrs: Vec<u16> = Vec::new();
+        while addrs.len() < k {
+            let a = pool[rng.below(8) as usize];
+            if !addrs.contains(&a) { addrs.push(a); }
+        }
+        let mk = |i: usize, a: u16| VirtualSign::new(Address(a), if (i + a as usize) % 2 == 0 { PageFlipStyle::Manual } else { PageFlipStyle::Automatic });
+        let mut bus = VirtualSignBus::new(addrs.iter().enumerate().map(|(i, a)| mk(i, *a)));
+        let mut alone: Vec<VirtualSign<'static>> = addrs.iter().enumerate().map(|(i, a)| mk(i, *a)).collect();
+        let mut history = String::new();
+        for step in 0..40 {
+            let a = if rng.below(6) == 0 { Address(pool[rng.below(8) as usize]) } else { Address(addrs[rng.below(k as u64) as usize]) };
+            let m: Message<'static> = match rng.below(12) {
+                0 => Message::Hello(a),
+                1 => Message::QueryState(a),
+                2 | 3 => Message::RequestOperation(a, ops[rng.below(2) as usize]),
+                4 => Message::RequestOperation(a, ops[rng.below(6) as usize]),
+                5 | 6 => Message::SendData(Offset(0), Data::try_new(types[rng.below(4) as usize].to_bytes().to_vec()).unwrap()),
+                7 => Message::SendData(Offset(16 * rng.below(4) as u16), Data::try_new((0..16).map(|_| rng.next() as u8).collect::<Vec<u8>>()).unwrap()),
+                8 | 9 => Message::DataChunksSent(ChunkCount(rng.below(4) as u16)),
+                10 => Message::PixelsComplete(a),
+                _ => Message::Goodbye(a),
+            };
+            history.push_str(&format!("{:?}; ", m));
+            let input = format!("bus of signs {:?}, step {}: [{}]", addrs, step, history);
+            let got = match catch_unwind(AssertUnwindSafe(|| bus.process_message(m.clone()))) {
+                Ok(Ok(r)) => r,
+                Ok(Err(e)) => return Some(Cex { domain: "bus", input, expected: "the virtual bus never fails".into(), actual: e.to_string() }),
+                Err(_) => return Some(Cex { domain: "bus", input, expected: "no panic".into(), actual: "panic".into() }),
+            };
+            let mut want: Option<Message<'static>> = None;
+            for s in alone.iter_mut() {
+                if let Some(r) = s.process_message(&m) {
+                    if want.is_none() { want = Some(r); }
+                }
+            }
+            if got != want {
+                return Some(Cex { domain: "bus", input, expected: format!("reply {:?} (what the addressed sign alone replies)", want), actual: format!("{:?}", got) });
+            }
+            for i in 0..k {
+                if *bus.sign(i) != alone[i] {
+                    return Some(Cex { domain: "bus", input, expected: format!("sign {:#06x} as when driven alone: {:?}", addrs[i], alone[i]).chars().take(600).collect(),
+                                      actual: format!("{:?}", bus.sign(i)).chars().take(600).collect() });
+                }
+            }
+        }
+    }
+    None
+}
